@@ -557,6 +557,9 @@ class ObjectReader:
         obj.oid = oid
         if database_name is None:
             obj.dm = self._conn
+            # needed if the reference is stored again from another
+            # database (persistent_id then writes the cross-database form)
+            obj.database_name = self._conn.db().database_name
         else:
             obj.database_name = database_name
             try:
